@@ -220,6 +220,49 @@ theorem run_c2c_count_end (t : Tol) (o : Oracle) (L e : ℚ) (n : ℕ) :
       simp only [body_c2c_count_end, c2cCountEnd, primsC2cCountEnd] <;> run_simp
     all_goals (cases hk : natOf ((n : ℚ) - 1)⁻¹ <;> simp [List.lookup, hk, *])
 
+/-! ### the functions handed to `brentq`: the validator `rootOK` is the residual of the *translated* function -/
+
+theorem solverFn_c2c_count_start {L s c : ℚ} {n : ℕ} (hs : s ≠ 0) (hc : c ≠ 1) :
+    solverFn (relEnv ⟨.c2c, .count, .start⟩ L n s) body_c2c_count_start c = .ok ((1 - c ^ n) / (1 - c) - L / s) := by
+  have h1 : (1 : ℚ) - c ≠ 0 := sub_ne_zero.mpr (Ne.symm hc)
+  simp [solverFn, brentqFn, findDefn, body_c2c_count_start, relEnv, evalE, PEnv.num, List.lookup, Q.name, bind,
+    Except.bind, pure, Except.pure, hs, h1]
+
+theorem solverFn_c2c_count_end {L e c : ℚ} {n : ℕ} (hn : n ≠ 0) (he : e ≠ 0) (hc : c ≠ 1) (hc0 : c ≠ 0) :
+    solverFn (relEnv ⟨.c2c, .count, .end_⟩ L n e) body_c2c_count_end c =
+      .ok (1 / c ^ (n - 1) * (1 - c ^ n) / (1 - c) - L / e) := by
+  have h1 : (1 : ℚ) - c ≠ 0 := sub_ne_zero.mpr (Ne.symm hc)
+  have hk := natOf_natCast_sub_one hn
+  have hp : c ^ (n - 1) ≠ 0 := pow_ne_zero _ hc0
+  simp [solverFn, brentqFn, findDefn, body_c2c_count_end, relEnv, evalE, PEnv.num, List.lookup, Q.name, bind,
+    Except.bind, pure, Except.pure, he, h1, hk, hp]
+
+/-- the residual of the geometric sum, scaled by the cell size -/
+theorem rootOK_start_resid {ε L s c : ℚ} {n : ℕ} (hs : s ≠ 0) (hc : c ≠ 1) :
+    rootOK ε s c L n = (decide (0 < c) && decide (absR (s * ((1 - c ^ n) / (1 - c) - L / s)) ≤ ε * L)) := by
+  have : s * gsum c n - L = s * ((1 - c ^ n) / (1 - c) - L / s) := by
+    rw [gsum, if_neg hc]; field_simp
+  rw [rootOK, this]
+
+theorem rootOK_end_resid {ε L e c : ℚ} {n : ℕ} (hn : n ≠ 0) (he : e ≠ 0) (hc : c ≠ 1) (hc0 : c ≠ 0) :
+    rootOK ε e (1 / c) L n =
+      (decide (0 < c) && decide (absR (e * (1 / c ^ (n - 1) * (1 - c ^ n) / (1 - c) - L / e)) ≤ ε * L)) := by
+  have h1 : (1 : ℚ) - c ≠ 0 := sub_ne_zero.mpr (Ne.symm hc)
+  have hci : (1 : ℚ) / c ≠ 1 := by
+    intro h; apply hc; field_simp at h; exact h.symm
+  have hpos : (0 < 1 / c) ↔ (0 < c) := one_div_pos
+  have hn' : n = (n - 1) + 1 := by omega
+  have : e * gsum (1 / c) n - L = e * (1 / c ^ (n - 1) * (1 - c ^ n) / (1 - c) - L / e) := by
+    rw [gsum, if_neg hci]
+    have h2 : (1 : ℚ) - 1 / c ≠ 0 := sub_ne_zero.mpr (Ne.symm hci)
+    have hp : c ^ (n - 1) ≠ 0 := pow_ne_zero _ hc0
+    have hpn : c ^ n = c ^ (n - 1) * c := by conv_lhs => rw [hn', pow_succ]
+    rw [one_div_pow, hpn]
+    field_simp
+    ring
+  rw [rootOK, this]
+  simp only [hpos]
+
 /-! ### the simple validators: their bodies do what `validateSem` says -/
 
 theorem validators_sem (P : Prims) (q : ℚ) :
@@ -247,5 +290,82 @@ theorem runI_invert (v : Vals) (p : Q) :
     (try by_cases hc : c = 0) <;> (try by_cases hT : T = 0) <;>
     simp [runI, invertBody, fieldQ, Q.ofString?, Vals.setOpt, Vals.get, invert, invertLeft, swapPreserve, Q.name,
       List.find?, pure, Except.pure, *]
+
+/-! ### `Chop.__post_init__` interpreted from what the source says now -/
+
+/-- `Chop.__post_init__` as the translated table describes it: `names` are the attributes counted as grading parameters,
+    fewer than `k` given and attribute `a` unset → `a = v`; attribute `b` (the count) set → `max(int(b), m)` -/
+def postInitGen (tbl : List String × Nat × (String × Nat) × (String × Nat))
+    (count : Option Int) (start end_ c2c total : Option Rat) : Option Vals :=
+  match tbl with
+  | (names, k, (a, v), (b, m)) => do
+      let qs ← names.mapM Q.ofString?
+      let qa ← fieldQ a
+      if b ≠ "count" then none
+      let isSet : Q → Bool := fun q =>
+        match q with
+        | .count => count.isSome | .start => start.isSome | .end_ => end_.isSome | .c2c => c2c.isSome
+        | .total => total.isSome
+      let given := (qs.filter isSet).length
+      let raw : Vals := { count := count.map (fun c => (max c (m : Int)).toNat), start := start, end_ := end_,
+                          c2c := c2c, total := total }
+      some (if given < k ∧ isSet qa = false then raw.setOpt qa (some (v : Rat)) else raw)
+
+theorem postInitGen_eq (count : Option Int) (start end_ c2c total : Option Rat) :
+    postInitGen CBV.Gen.c03PostInit count start end_ c2c total = some (postInit count start end_ c2c total) := by
+  cases count <;> cases start <;> cases end_ <;> cases c2c <;> cases total <;>
+    simp [postInitGen, CBV.Gen.c03PostInit, postInit, fieldQ, Q.ofString?, Vals.setOpt, List.mapM_cons, List.filter]
+
+/-! ### `Chop.copy_preserving` interpreted from what the source says now -/
+
+theorem floor_natCast_toNat (n : ℕ) : ((n : ℚ)).floor.toNat = n := by
+  have h : ((n : ℚ)).floor = (n : ℤ) := by
+    apply le_antisymm
+    · have := Rat.floor_le (n : ℚ)
+      have h2 : (((n : ℚ).floor : ℤ) : ℚ) ≤ ((n : ℤ) : ℚ) := by simpa using this
+      exact Int.cast_le.mp h2
+    · exact Rat.le_floor_iff.mpr (by simp)
+  rw [h]; simp
+
+/-- `Chop.copy_preserving(inverted)` as the translated tables describe it: the arguments start as the chop's *own current
+    fields* (`dataclasses.asdict(self)`), `args[k1] = results[k2]`, every key of `cleared` is set to `None`, the preserved
+    quantity is taken from `results`, the new chop goes through `__post_init__` (`postInitGen` on `initTbl`), and is
+    inverted when asked (`doInvert`) -/
+def copyGen (tbl : (String × String) × List String × Bool)
+    (initTbl : List String × Nat × (String × Nat) × (String × Nat)) (ob : Obj) (inverted : Bool) : Except Err Vals :=
+  match ob.last with
+  | none => .error .unmodelled
+  | some res =>
+      match tbl with
+      | ((k1, k2), cleared, doInvert) =>
+          if k1 ≠ "count" ∨ k2 ≠ "count" then .error .table
+          else
+            match cleared.mapM fieldQ, res.count, res.get ob.preserve with
+            | none, _, _ => .error .table
+            | some qs, some n, some x =>
+                let a1 : Vals := qs.foldl (fun v q => v.setOpt q none) ob.params
+                let a2 : Vals := a1.setOpt ob.preserve (some x)
+                match postInitGen initTbl (some (n : Int)) a2.start a2.end_ a2.c2c a2.total with
+                | some c => if inverted && doInvert then invert c else pure c
+                | none => .error .table
+            | some _, _, _ => .error .unmodelled
+
+theorem copyGen_eq (ob : Obj) (inverted : Bool)
+    (hn : ∀ res n, ob.last = some res → res.count = some n → 1 ≤ n) :
+    copyGen CBV.Gen.c03CopyPreserving CBV.Gen.c03PostInit ob inverted = copyPreserving ob inverted := by
+  obtain ⟨params, preserve, last⟩ := ob
+  cases last with
+  | none => rfl
+  | some res =>
+    obtain ⟨cn, cs, ce, cc, cT⟩ := res
+    cases cn with
+    | none => cases preserve <;> simp [copyGen, CBV.Gen.c03CopyPreserving, copyPreserving, fieldQ, Q.ofString?, Vals.get]
+    | some n =>
+      have hn1 : 1 ≤ n := hn _ n rfl rfl
+      have hmax : max n 1 = n := by omega
+      have hmaxI : max (n : ℤ) 1 = (n : ℤ) := by omega
+      cases preserve <;> cases cs <;> cases ce <;> cases cc <;> cases cT <;>
+        simp [copyGen, CBV.Gen.c03CopyPreserving, copyPreserving, fieldQ, Q.ofString?, Vals.get, List.foldl, Vals.setOpt,
+          postInitGen_eq, postInit, Vals.assign, hmax, hmaxI, floor_natCast_toNat]
 
 end CBV.C03
